@@ -344,10 +344,12 @@ impl NestedTrieDawg {
             }
         }
 
-        // Mark final state as terminal
+        // Mark final state as terminal; a key that is already present is not counted again
         if (current_state as usize) < self.states.len() {
-            self.states[current_state as usize].set_terminal(true);
-            self.num_keys += 1;
+            if !self.states[current_state as usize].is_terminal() {
+                self.states[current_state as usize].set_terminal(true);
+                self.num_keys += 1;
+            }
         }
 
         Ok(())
